@@ -462,6 +462,70 @@ def run_check(tier, seed):
                 elif bytes.fromhex(hx) != expb:
                     prop_fail.append(('C18:sparse:wrong-place', 'element was not stored at byte offset %d (found %s, expected %s)' % (off, hx, expb.hex()), d2))
         log('[S4] sparse: %d files, %d elements on both sides of 2^31 / 2^32 in %.1fs (max %d blocks allocated)' % (n_sp, n_elem, t2.s(), maxblk))
+        # ---------------- stream blocks (added by the integrator): multi-row requests on variables whose inner
+        # dimension exceeds 2^31-1 / 2^32: the filetype construction (type_create_subarray64 and its big-integer
+        # path) must place row r at begin + r * (inner length) * xsz.  Spec = row-major addressing.
+        import apicmp
+        t3 = Timer()
+        n_blk = 0
+        bexe = apicmp.build_apirun(tree, wd)
+        for inner, xt, mt, xsz in ((2**31 + 40, 'byte', 'schar', 1), (2**32 + 64, 'byte', 'schar', 1), (2**31 + 8, 'short', 'short', 2),
+                                   (2**32 // 4 + 16, 'int', 'int', 4)):
+            for (c0, c1, s1) in ((5, 3, 1), (inner - 9, 4, 1), (7, 2, 3)):
+                name = 'c18blk_%d.nc' % n_blk
+                lines_b = ['1 * create %s 5 clobber -' % name, '2 * def_dim r 3', '3 * def_dim big %d' % inner,
+                           '4 * def_var pad int 1 r', '5 * def_var v %s 2 r big' % xt, '6 * enddef',
+                           '7 * inq_varoffset v']
+                vals = list(range(1, 2 * c1 + 1))
+                if s1 == 1:
+                    lines_b.append('8 * put vara c v %s c 1,%d 2,%d - - : %s' % (mt, c0, c1, ' '.join(map(str, vals))))
+                else:
+                    lines_b.append('8 * put vars c v %s c 1,%d 2,%d 1,%d - : %s' % (mt, c0, c1, s1, ' '.join(map(str, vals))))
+                lines_b.append('9 * sync')
+                st = 10
+                cells = [(1 + r, c0 + k * s1) for r in range(2) for k in range(c1)]
+                for (r, c) in cells:
+                    lines_b.append('%d * get var1 c v %s c %d,%d - - -' % (st, mt, r, c)); st += 1
+                if s1 == 1:
+                    lines_b.append('%d * get vara c v %s c 1,%d 2,%d - -' % (st, mt, c0, c1)); st += 1
+                lines_b.append('%d * close' % st); st += 1
+                script = os.path.join(wd, 'blk_%d.txt' % os.getpid())
+                open(script, 'w').write('\n'.join(lines_b) + '\n')
+                rc, impl, err = apicmp.run_impl(bexe, script, 1, wd)
+                n_blk += 1
+                desc = dict(stream='blocks', script='\n'.join(lines_b), rc=rc, out=impl[:30])
+                begin = None
+                got = {}
+                for l in impl:
+                    t = l.split()
+                    if t[0] == '7':
+                        begin = int(t[4])
+                    if t[2] == 'get' and int(t[0]) >= 10 and int(t[0]) < 10 + len(cells):
+                        got[int(t[0]) - 10] = (t[3], t[-1])
+                if rc != 0 or begin is None or len(got) != len(cells):
+                    prop_fail.append(('C18:blocks:failed', 'multi-row request on a variable with inner dimension %d failed' % inner, desc)); continue
+                bad_cells = [(cells[i], got[i], vals[i]) for i in range(len(cells)) if got[i] != ('0', str(vals[i]))]
+                # raw bytes at the specified offsets
+                fpath = os.path.join(wd, name)
+                raw_bad = []
+                try:
+                    with open(fpath, 'rb') as fh:
+                        for i, (r, c) in enumerate(cells):
+                            off = begin + (r * inner + c) * xsz
+                            fh.seek(off)
+                            bts = fh.read(xsz)
+                            if int.from_bytes(bts, 'big', signed=True) != vals[i]:
+                                raw_bad.append((off, bts.hex(), vals[i]))
+                    os.unlink(fpath)
+                except OSError as ex:
+                    raw_bad.append(('io', str(ex), 0))
+                bump('blocks:inner>%s:%s' % ('2^32' if inner * xsz > 2**32 else '2^31', 'strided' if s1 > 1 else 'contig-rows'))
+                distinct.add('blocks %d %s %d %d %d' % (inner, xt, c0, c1, s1))
+                if bad_cells or raw_bad:
+                    prop_fail.append(('C18:blocks:wrong-place', 'block (rows 1-2, cols from %d) of a variable with inner dimension %d: elements read back %s ; raw bytes at the specified offsets %s'
+                                      % (c0, inner, bad_cells[:3], raw_bad[:3]), desc))
+        n_elem += n_blk
+        log('[S4] blocks: %d multi-row requests across 2^31 / 2^32 inner dimensions in %.1fs' % (n_blk, t3.s()))
         V.cov['evaluations'] = len(dlines) + n_def + n_elem
         V.cov['distinct_nontrivial'] = len(distinct)
         V.cov['traces_validated_against_impl'] = len(dlines) + n_def + n_elem - len(tie_diffs)
